@@ -496,3 +496,13 @@ Fixpoint run_pubfirst (p : params) (s : stv) (ls : list vlabel) : option stv :=
   | [] => Some s
   | l :: r => match step_pubfirst p s l with Some s' => run_pubfirst p s' r | None => None end
   end.
+
+(* ============================================================ Part 8: chunked partitions *)
+(* A loop may be handed to a backend as k chunks, chunk c = [n*c/k, n*(c+1)/k).  Over Z this is an exact partition of
+   [0,n) (Properties.chunks_partition).  Evaluated in INDEX_T the product n*c wraps once n*k exceeds the type: the
+   machine reading below.  rkcommon's dispatch forms no such product (PropertiesSrc.src_dispatch_arith_free): the
+   backends receive (0, nTasks) unchanged. *)
+Definition chunk (n k c : Z) : Z * Z := (n * c / k, n * (c + 1) / k).
+Definition chunks (n k : Z) : list (Z * Z) := map (chunk n k) (zrange 0 k).
+Definition m_chunk (t : ctype) (n k c : Z) : Z * Z :=
+  (wrap t (Z.quot (wrap t (n * wrap t c)) (wrap t k)), wrap t (Z.quot (wrap t (n * wrap t (c + 1))) (wrap t k))).
